@@ -28,3 +28,7 @@ Definition w_years (Ly Sy : Z) (o h f : list (Q * Z)) : list Q :=
   | Some l => l | None => [] end.
 Definition run_rw_years (L S Ly Sy : Z) (dobs dhist dfut : list Z) (obs hist fut : list (Q * Z)) : option (list Q) :=
   flatten (driver_rw_skip Q L S dobs dhist dfut obs hist fut (w_years Ly Sy)).
+
+(** ISIMIP month mode (K20): the month loop with the probe pipeline *)
+Definition run_months (mo mh mf : list Z) (obs hist fut : list Q) : option (list Q) :=
+  flatten (months_driver Q mo mh mf obs hist fut probe_w).
